@@ -16,6 +16,8 @@ INVARIANT TextVsNumber
 INVARIANT Trichotomy
 INVARIANT CaseInsensitive
 INVARIANT StarLaw
+INVARIANT BlankIsZero
+INVARIANT LineBreakLaw
 INVARIANT AverageLaw
 INVARIANT Export
 PROPERTY Narrowing
